@@ -323,6 +323,7 @@ fn graph_hash(g: &GraphSpec) -> u64 {
         h.usize(e.from);
         h.usize(e.to);
         h.u8(e.kind as u8);
+        h.u64(e.batch as u64);
     }
     h.0
 }
